@@ -146,6 +146,10 @@ class T:
         c.assume(z3.Implies(self.d_nc_all(rd), self.tr_retval(t2) == self.tr_retval(tr)))    # C08.nochange
         c.assume(self.d_is_tree(rd))
         c.assume(z3.Not(self.is_Mask(rd)))
+        inc = getattr(I, "INCR", None)
+        if inc is not None:       # C08 for G, leafwise: NoChange-tagged leaves of the retdiff equal the previous return value's
+            inc.link(rd)
+            c.assume(inc.hu(self.tr_retval(tr), self.d_primal(rd), self.d_tangent(rd)))
         ci_update = I.repo.resolve_qual(GF + ":Update")[1]
         bwd = UVal(bw, "EditRequest")
         if isinstance(request, Obj) and request.cls.name == "Update":
@@ -360,8 +364,9 @@ class Theory:
         self.t = t = T(I)
         I.T = t
         I.view_hook = t.view_hook
-        from . import dist
+        from . import dist, incr
         dist.install(I)
+        incr.install(I)
         I.abstract_classes = {
             "Trace": GF + ":Trace", "GenerativeFunction": GF + ":GenerativeFunction", "ChoiceMap": CM + ":ChoiceMap",
             "Selection": CM + ":Selection", "EditRequest": CONCEPTS + ":EditRequest",
